@@ -11,7 +11,9 @@ RULE = (
     "pickles whose leaf resolves-and-calls a drawn set of globals (allow-listed constructors that "
     "resolve here: collections.OrderedDict/defaultdict, argparse.Namespace, torch.Size, "
     "_codecs.encode, _io.BytesIO, numpy.dtype; user-addable names; foreign names: verif_sink.sink, "
-    "os.getpid, builtins.eval, collections.Counter, torch.load (resolved only)) wrapped 0..3 levels "
+    "os.getpid, builtins.eval, collections.Counter, torch.load (resolved only), protocol-4 "
+    "qualified names; or a benign zip / legacy torch container, whose own globals must all be "
+    "allow-listed) wrapped 0..3 levels "
     "deep as a byte-string argument of a loader callable (pickle.loads, _pickle.loads, pickle.load "
     "on _io.BytesIO, torch.storage._load_from_bytes) x entry point (pickle.load, pickle.loads, "
     "_pickle.load, _pickle.loads) x explicit additions (none, loader callables, extra names). "
@@ -113,7 +115,52 @@ def wrap(inner, loader):
     raise ValueError(loader)
 
 
+def torch_container(kind, seed):
+    """benign torch container (zip or legacy) and the globals its pickles name"""
+    import pickletools
+    import zipfile
+
+    import torch
+
+    torch.manual_seed(seed)
+    obj = {"w": torch.randn(2, 3), "b": torch.arange(4), "n": seed, "l": [torch.zeros(1, dtype=torch.float64)]}
+    buf = io.BytesIO()
+    torch.save(obj, buf, _use_new_zipfile_serialization=(kind == "torch_zip"))
+    data = buf.getvalue()
+    names = set()
+    if kind == "torch_zip":
+        with zipfile.ZipFile(io.BytesIO(data)) as z:
+            pkls = [z.read(n) for n in z.namelist() if n.endswith(".pkl")]
+    else:
+        pkls = [data]
+    for blob in pkls:
+        pos = 0
+        while pos < len(blob):
+            try:
+                ops = list(pickletools.genops(blob[pos:]))
+            except Exception:  # noqa: BLE001 - raw storage bytes follow the legacy pickles
+                break
+            strs = []
+            for op, arg, _ in ops:
+                if op.name == "GLOBAL":
+                    names.add(tuple(arg.split(" ", 1)))
+                elif op.name in ("SHORT_BINUNICODE", "BINUNICODE", "UNICODE"):
+                    strs.append(arg)
+                elif op.name == "STACK_GLOBAL" and len(strs) >= 2:
+                    names.add((strs[-2], strs[-1]))
+            pos += ops[-1][2] + 1
+    return data, names
+
+
 def build(leaf_globs, loaders):
+    if leaf_globs and leaf_globs[0][0] in ("torch_zip", "torch_legacy"):
+        inner, names = torch_container(leaf_globs[0][0], leaf_globs[0][1])
+        data = wrap(inner, "torch._load_from_bytes")
+        names = set(names) | set(LOADER_GLOBALS["torch._load_from_bytes"])
+        for ld in reversed(loaders):
+            data = wrap(data, ld)
+            names.update(LOADER_GLOBALS[ld])
+        return data, names
     data = leaf_pickle(leaf_globs)
     for ld in reversed(loaders):
         data = wrap(data, ld)
@@ -169,6 +216,8 @@ def _norm(v):
         return (type(v).__name__, tuple(_norm(x) for x in v))
     if isinstance(v, io.BytesIO):
         return ("BytesIO", v.getvalue())
+    if type(v).__name__ == "Tensor":
+        return ("Tensor", str(v.dtype), tuple(v.shape), repr(v.tolist()))
     if isinstance(v, dict):
         return (type(v).__name__, tuple((repr(k), _norm(x)) for k, x in v.items()))
     return (type(v).__name__, repr(v))
@@ -262,6 +311,11 @@ def _case_strategy():
         ),
         min_size=1, max_size=4,
     )  # fmt: skip
+    # benign torch containers (allowed side only; foreign globals inside them are KF-C07-1)
+    container = st.tuples(st.sampled_from(["torch_zip", "torch_legacy"]), st.integers(0, 5), st.none()).map(
+        lambda t: [t]
+    )
+    leaf = st.one_of(leaf, leaf, leaf, leaf, container)
     loaders = st.lists(st.sampled_from(LOADERS), max_size=3)
     adds = st.lists(
         st.sampled_from(["pickle.loads", "_pickle.loads", "pickle.load", "collections.Counter",
@@ -302,7 +356,7 @@ def run_shard(spec, seed):
                 repr((leaf, loaders, entry, adds)),
                 len(loaders) >= 1 or bool(adds),
                 klass=[f"depth{len(loaders)}", "foreign" if names - allowed else "all-allowed", entry],
-                sample={"leaf": [f"{m}.{n}" for m, n, _ in leaf], "loaders": loaders, "entry": entry,
+                sample={"leaf": [f"{m}.{n}" for m, n, _ in leaf], "loaders": list(loaders), "entry": entry,
                         "additions": adds},
             )
             if f is not None:
